@@ -198,16 +198,38 @@ theorem C10_pingresp_clears (s : Session) :
     (s.handle .pingResp).1.data = s.data :=
   ⟨rfl, rfl, rfl, rfl, rfl⟩
 
-/-- Oddity: a PINGREQ that was queued but not completely flushed when the connection broke stays in
-the control queue, is re-armed by the disconnect, survives a resumed CONNACK — here one that sets the
-keep-alive to 0 — and is the next packet sent on the new connection. -/
-theorem C10_oddity_stale_pingreq_replayed :
+/-- **No stale PINGREQ.** A PINGREQ that was queued but not completely flushed when the connection
+broke is dropped by `arm_replay` (disconnect and connect): the next connection starts with no
+PINGREQ in its control queue, whatever keep-alive it negotiates. (Before the repair recorded as
+`fixed: F22` it was re-armed and became the first packet of the next connection, also under a
+negotiated keep-alive of zero.) -/
+theorem C10_no_stale_pingreq (o : Outbound) :
+    (∀ e ∈ o.rearm.control, e.action.typ ≠ MT_PingReq) ∧ o.rearm.hasPendingPingreq = false := by
+  have h : ∀ e ∈ o.rearm.control, e.action.typ ≠ MT_PingReq := by
+    intro e he
+    unfold Outbound.rearm Outbound.armReplay at he
+    split at he
+    · simp only [Outbound.dropPingreq, List.mem_filter] at he
+      simpa using he.2
+    · simp only [Outbound.markRetainedDup, List.mem_map] at he
+      obtain ⟨x, hx, rfl⟩ := he
+      simp only [Outbound.dropPingreq, List.mem_filter] at hx
+      simpa using hx.2
+  refine ⟨h, ?_⟩
+  unfold Outbound.hasPendingPingreq
+  rw [List.any_eq_false]
+  intro e he
+  have := h e he
+  simp [this]
+
+/-- The F22 witness after the repair: the stale PINGREQ is gone and nothing is sent under the
+negotiated keep-alive of zero. -/
+example :
     let s0 := Session.new { rx := 64, tx := 64, keepaliveS := 60, expiry := 0, downgrade := false, clientId := [], auth := none, will := none }
     let o : Outbound := { s0.data.outbound with control := [{ action := ControlAction.pingReq, state := .flush }] }
     let s : Session := { s0 with data := { s0.data with sessionPresent := true, outbound := o } }
     let s' := (s.handleDisconnect.beginConnect.activate true [b 0x13, b 0, b 0] 0).1
-    s'.rt.keepaliveMs = 0 ∧ s'.rt.nextPing = none ∧
-    s'.data.outbound.nextStep = some (.control ControlAction.pingReq (.write 0)) := by
+    s'.rt.keepaliveMs = 0 ∧ s'.rt.nextPing = none ∧ s'.data.outbound.nextStep = none := by
   decide
 
 end Minimq
